@@ -149,6 +149,46 @@ def pairs(k, at, n):
         if i == at:
             act(k)
         yield ('k' + str(i), i)
+def gfin(k, n):
+    for i in range(n):
+        try:
+            if i == k:
+                return i
+            yield i
+        finally:
+            yield 'f'
+def gnest(k):
+    n = 0
+    while n < 3:
+        try:
+            try:
+                if n == k:
+                    return n
+                yield n
+            finally:
+                yield ('f', n)
+        except ValueError:
+            yield 'caught'
+        n += 1
+def gwith(k):
+    with M(k, 1, True):
+        try:
+            yield 1
+            act(k)
+            return 2
+        finally:
+            yield 3
+def again(g, n):
+    # keeps resuming a generator after it is exhausted or has raised
+    out = []
+    for _i in range(n):
+        try:
+            out.append(next(g))
+        except StopIteration as e:
+            out.append(('stop', e.value))
+        except Exception as e:
+            out.append('exc')
+    return out
 class K:
     x = 1
 class K2(K):
@@ -360,6 +400,11 @@ func (c *c10Fz) stmt() string {
 		s := g.Str("'1 +'", "'x = ('", "''", "'\\x00'", "'(' * 200 + ')' * 200", "'lambda: (yield)'", "'def f():\\n  return'", "'1' + ' + 1' * 3000", "'\\\\'", "'\"\\\\N{bad}\"'", "'a' * 1000", "'[' * 100", "b'1'", c.val())
 		return g.Str("eval("+s+")", "exec("+s+")", "compile("+s+", 'f', "+g.Str("'exec'", "'eval'", "'single'", "'bad'", c.val())+")", "exec("+s+", "+c.val()+")", "eval("+s+", "+c.val()+", "+c.val()+")")
 	case 24:
+		if g.Chance(1, 3) {
+			kind("generator-resumed-after-exhaustion")
+			mk := g.Str("gfin("+c.small()+", "+fmt.Sprint(g.Int(0, 4))+")", "gnest("+c.small()+")", "gwith("+c.k()+")", c.gen())
+			return g.Str("again("+mk+", "+fmt.Sprint(g.Int(1, 9))+")", "_g = "+mk+"\nlist(_g)\nagain(_g, 3)", "_g = "+mk+"\nagain(_g, 2)\n_g.send("+c.val()+")\nagain(_g, 4)", "for _a in "+mk+":\n    again("+mk+", 5)")
+		}
 		kind("generator-protocol")
 		gg := c.gen()
 		return g.Str("_g = "+gg+"\nnext(_g)\n_g.send("+c.val()+")", "_g = "+gg+"\n_g.send("+c.val()+")", "next("+c.val()+")", "next("+c.val()+", "+c.val()+")", "_g = "+gg+"\nlist(_g)\nnext(_g)", "iter("+c.cb()+", "+c.val()+")", "_i = iter("+c.cb()+", 0)\nnext(_i)\nnext(_i)\nnext(_i)", "_g = (x for x in "+c.val()+")\nnext(_g)", "_g = "+gg+"\nfor _a in _g:\n    for _b in _g:\n        pass", "next("+c.m()+")")
